@@ -8,7 +8,7 @@ from props.framing import (B, hlist, vbs_ref, data_blocks, read_all_impl, rend_t
 
 ID = 'C11'
 RULE = ('operation histories write^n fin^m, n in 0..3 (thorough 0..5), m in 1..4 (thorough 1..5), every sequence of '
-        'finalisations drawn from {close(), context-manager exit} exhaustively, for VbsWriter and IpmWriter, blocked and '
+        'finalisations drawn from {close(), bare context-manager exit, a further `with writer: pass` block} exhaustively, for VbsWriter and IpmWriter, blocked and '
         'unblocked, on io.BytesIO and on real files in a private temporary directory; non-trivial = distinct history with '
         'at least one record or two finalisations')
 EXHAUSTIVE = {'quick': True, 'thorough': True}
@@ -18,10 +18,10 @@ MSG = {'MTI': '1144', 'DE2': '4444555566667777', 'DE3': '111111', 'DE4': 9999, '
 
 def gen(rng, tier):
     cases = []
-    nmax, mmax = (3, 4) if tier == 'quick' else (5, 5)
+    nmax, mmax = (3, 3) if tier == 'quick' else (4, 5)
     for n in range(0, nmax + 1):
         for m in range(1, mmax + 1):
-            for fins in itertools.product('CX', repeat=m):
+            for fins in itertools.product('CXR', repeat=m):
                 for blocked in (False, True):
                     for cls in ('vbs', 'ipm'):
                         for medium in ('mem', 'disk'):
@@ -63,8 +63,11 @@ def run_history(case, fins):
         for x in fins:
             if x == 'C':
                 w.close()
-            else:
+            elif x == 'X':
                 w.__exit__(None, None, None)
+            else:                      # leaving a (further) with-block on the same writer
+                with w:
+                    pass
         if path:
             f.flush()
             with open(path, 'rb') as g:
@@ -95,7 +98,7 @@ def model_lines(case, io_):
     if case['cls'] != 'vbs':
         return []
     rs = recs(case)
-    return ['vbs_write %s %s' % ('1' if case['blocked'] else '0', ','.join(['W' + (r.hex() or '_') for r in rs] + list(case['fins'])))]
+    return ['vbs_write %s %s' % ('1' if case['blocked'] else '0', ','.join(['W' + (r.hex() or '_') for r in rs] + [('X' if x == 'R' else x) for x in case['fins']]))]
 
 
 def judge(case, io_, mo):
